@@ -28,6 +28,7 @@ from ..report import Result, mk_finding
 from .common import unparse
 
 PROP = "C10"
+from ..cfg import EXIT as EXIT_NODE  # noqa: E402
 
 
 def run(ctx):
@@ -128,9 +129,58 @@ def lambda_map(fn, name):
 
 
 # ------------------------------------------------------------------------------------------ HIF
+def check_record_attrs_reach(res, r):
+    """T-ATTRS (reader side): inside every loop over records, the local bound to the record's "attrs" reaches the
+    network on every path through the loop body (passed to add_node / add_edge with **, or to set_*_attributes).
+    A branch that creates the element without its attributes silently drops them for exactly the elements that take
+    that branch (e.g. empty edges, isolated nodes)."""
+    from ..cfg import CFG
+
+    cfg = CFG(r.node)
+    n = 0
+    for lp in ast.walk(r.node):
+        if not isinstance(lp, ast.For):
+            continue
+        inside = {id(x) for b in lp.body for x in ast.walk(b)}
+        attr_names = set()
+        binds = []
+        for st in ast.walk(lp):
+            if isinstance(st, ast.Assign) and len(st.targets) == 1 and isinstance(st.targets[0], ast.Name) and id(st) in inside:
+                v = st.value
+                reads_attrs = any((isinstance(x, ast.Subscript) and isinstance(x.slice, ast.Constant) and x.slice.value == "attrs") or (isinstance(x, ast.Call) and getattr(x.func, "attr", None) == "get" and x.args and isinstance(x.args[0], ast.Constant) and x.args[0].value == "attrs") for x in ast.walk(v))
+                if reads_attrs:
+                    attr_names.add(st.targets[0].id)
+                    binds.append(st)
+        for name in sorted(attr_names):
+            mine = [b for b in binds if b.targets[0].id == name]
+
+            def consumes(nd, name=name):
+                if not isinstance(nd, ast.AST) or any(nd is b for b in mine):
+                    return False
+                for c in own_nodes(nd):
+                    if isinstance(c, ast.Call) and any(isinstance(x, ast.Name) and x.id == name for a in list(c.args) + [k.value for k in c.keywords] for x in ast.walk(a)):
+                        nm = getattr(c.func, "attr", getattr(c.func, "id", ""))
+                        if nm.startswith(("add_", "set_")) or nm in ("update",):
+                            return True
+                return False
+
+            for b in mine:
+                n += 1
+                reach = cfg.reachable(b, avoid=consumes)
+                leaks = lp in reach or EXIT_NODE in reach
+                res.inst("T-ATTRS", f"from_hif_dict:{b.lineno} record attributes `{name}` reach the network on every path of the loop body", not leaks)
+                if leaks:
+                    # name the creating call on the leaking path
+                    culprit = next((x for x in sorted((y for y in reach if isinstance(y, ast.AST) and id(y) in inside), key=lambda y: getattr(y, "lineno", 0)) if any(isinstance(c, ast.Call) and getattr(c.func, "attr", "").startswith("add_") for c in own_nodes(x))), b)
+                    res.add(mk_finding(PROP, "T-ATTRS", r, culprit, f"from_hif_dict: on a path through the loop over records, `{unparse(culprit, 50)}` creates the element but the record's attributes (`{name}`) are never handed to the network; the attributes of every element that takes this path (an edge without incidences, an isolated node) are lost on reading", role=f"reader:{name}"))
+    if n < 2:
+        raise AnalysisError("from_hif_dict: fewer than two record loops that read `attrs` (extractor does not recognise the code)")
+
+
 def check_hif(repo, res):
     w = fn_of(repo, "xgi.convert.hif_dict", "to_hif_dict")
     r = fn_of(repo, "xgi.convert.hif_dict", "from_hif_dict")
+    check_record_attrs_reach(res, r)
     wkeys = {k for k, _ in subscript_keys(w, "data")}
     rsub = subscript_keys(r, "data")
     rkeys = {k for k, _ in rsub} | membership_keys(r, "data")
